@@ -223,6 +223,10 @@ func (s *Session) callOpts(r *rpcState, opts []string) []grpc.CallOption {
 				cm["x-rpc"] = fmt.Sprint(r.n)
 			}
 			out = append(out, grpc.PerRPCCredentials(perRPCCreds{md: cm}))
+		case "creds2":
+			// a second credentials option on the same call, whose keys collide with the first one's and with the
+			// outgoing context's: every value travels, none replaces another
+			out = append(out, grpc.PerRPCCredentials(perRPCCreds{md: map[string]string{"x-cred": "c2", "k1": "from-creds"}}))
 		case "chan":
 			out = append(out, grpctunnel.WithTunnelChannel(&r.chT))
 		}
@@ -272,6 +276,13 @@ func sentMD(ctx context.Context, opts []string, rpc int) map[string][]string {
 		if has(opts, "nomd") {
 			md.Append("x-rpc", fmt.Sprint(rpc))
 		}
+	}
+	if has(opts, "creds2") {
+		if md == nil {
+			md = metadata.MD{}
+		}
+		md.Append("x-cred", "c2")
+		md.Append("k1", "from-creds")
 	}
 	return wire.MD(md)
 }
